@@ -134,7 +134,33 @@ def blank_row_class(ops, formats):
     return empties_before or (empty_any and len(seen) <= 1)
 
 
+LEVELS = {"debug": 10, "info": 20, "warn": 30, "error": 40}
+LONG = "abcdefghijklmnopqrstuvwxyz0123456789"   # 36 characters
+
+
+def gen_human_case(rng, i):
+    """log levels, the disabled logger and truncation / collision of long keys in the human formats"""
+    pool = ["k0", "k1", LONG, LONG + "x", LONG[:33] + "Q" + "tail", LONG[:33] + "Z" + "tail", LONG[:35], "v" * 50]
+    ops, tok = [], 0
+    for _ in range(rng.randint(3, 14)):
+        u = rng.random()
+        if u < 0.2:
+            ops.append(["level", rng.choice([10, 20, 30, 40, 50, 20])])
+        elif u < 0.55:
+            m = rng.choice(["debug", "info", "warn", "error", "log"])
+            ops.append(["log", m, rng.choice([10, 20, 30, 40]) if m == "log" else LEVELS[m], f"msg{tok}x"])
+            tok += 1
+        elif u < 0.85:
+            ops.append(["record", rng.choice(pool if rng.random() < 0.8 else pool[:2]), rng.randint(0, 99)])
+        else:
+            ops.append(["dump"])
+    ops.append(["dump"])
+    return {"kind": "human", "formats": ["stdout", "log"], "ops": ops, "id": i}
+
+
 def gen_case(rng, i):
+    if i % 10 == 7:
+        return gen_human_case(rng, i)
     breaks = i % 5 == 4  # separate sub-stream with line breaks in string values
     while True:
         pool = rng.sample(KEYS, rng.randint(1, 8))
@@ -242,6 +268,112 @@ def run_impl(case):
     finally:
         sys.stdout = old_stdout
         shutil.rmtree(d, ignore_errors=True)
+
+
+# ---------------------------------------------------------------- log levels / truncation sub-stream
+
+def run_human(case):
+    from stable_baselines3.common import logger as L
+
+    d = tempfile.mkdtemp(prefix="c20h_")
+    old_stdout, buf = sys.stdout, io.StringIO()
+    events = []
+    try:
+        sys.stdout = buf
+        with warnings.catch_warnings():
+            warnings.simplefilter("ignore")
+            lg = L.configure(d, ["stdout", "log"])
+            for op in case["ops"]:
+                if op[0] == "level":
+                    lg.set_level(op[1])
+                elif op[0] == "log":
+                    if op[1] == "log":
+                        lg.log(op[3], level=op[2])
+                    else:
+                        getattr(lg, op[1])(op[3])
+                elif op[0] == "record":
+                    lg.record(op[1], op[2])
+                else:
+                    try:
+                        lg.dump()
+                        events.append({"raised": False, "left": len(lg.name_to_value)})
+                    except ValueError as e:
+                        events.append({"raised": True, "msg": str(e)[:80]})
+                        break
+            lg.close()
+        sys.stdout = old_stdout
+        return {"human": True, "events": events, "log": open(os.path.join(d, "log.txt")).read(), "stdout": buf.getvalue()}
+    finally:
+        sys.stdout = old_stdout
+        shutil.rmtree(d, ignore_errors=True)
+
+
+def human_plan(case):
+    """what the Logger model is asked: (cfg, level) of every log call; (cfg, pending keys) of every dump (pending survives a disabled dump)"""
+    cfg, pending, logs, dumps = 20, [], [], []
+    for op in case["ops"]:
+        if op[0] == "level":
+            cfg = op[1]
+        elif op[0] == "log":
+            logs.append((cfg, op[2], op[3]))
+        elif op[0] == "record":
+            if op[1] not in pending:
+                pending.append(op[1])
+        else:
+            dumps.append((cfg, list(pending)))
+            if cfg != 50:
+                pending = []
+    return logs, dumps
+
+
+def exprs_human(case, impl):
+    logs, dumps = human_plan(case)
+    le = coq_list([f"(({cfg})%Z, ({lv})%Z)" for cfg, lv, _ in logs])
+    de = coq_list([f"(({cfg})%Z, {coq_list([coq_text(k) for k in keys])})" for cfg, keys in dumps])
+    return [f"(map (fun c => log_emits (fst c) (snd c)) {le}, "
+            f"map (fun d => (Z.eqb (fst d) DISABLED_, map (fun k => S_ (truncate 36 k)) (snd d), existsb (fun a => existsb (collide 36 a) (snd d)) (snd d))) {de})"]
+
+
+def compare_human(case, impl, mv):
+    probs = []
+    logs, dumps = human_plan(case)
+    emits, dviews = mv[0]
+    for fmt in ("log", "stdout"):
+        text = impl[fmt]
+        lines = text.split("\n")
+        # ---- oracle: a message is written iff the configured level is not above the message's level
+        for (cfg, lv, tok), em in zip(logs, emits):
+            shown = tok in lines
+            if shown != (cfg <= lv):
+                probs.append(("oracle-log-level-filter", f"{fmt}: message at level {lv} with logger level {cfg}: written={shown}"))
+            if shown != em:
+                probs.append(("log-level-model", f"{fmt}: message {tok}: impl {shown} model {em}"))
+        tables = parse_tables(text)
+        for r, ((cfg, keys), (disabled, shown_keys, collides)) in enumerate(zip(dumps, dviews)):
+            if r >= len(impl["events"]):
+                break
+            ev = impl["events"][r]
+            if collides and not disabled and keys:
+                if not ev["raised"]:
+                    probs.append(("oracle-human-key-collision-not-refused", f"dump {r}: two keys are cut to the same text but no ValueError was raised"))
+                break
+            if ev["raised"]:
+                probs.append(("oracle-human-dump-raises", f"dump {r}: ValueError {ev['msg']} without a key collision"))
+                break
+            if disabled or not keys:
+                continue
+            table = tables.pop(0) if tables else {}
+            # ---- oracle: every key is shown, cut to at most 36 characters (first 33 + "...") when longer
+            want = [k if len(k) <= 36 else k[:33] + "..." for k in keys]
+            if sorted(table) != sorted(want):
+                probs.append(("oracle-human-truncation", f"{fmt} dump {r}: keys shown {sorted(table)} expected {sorted(want)}"))
+            if sorted(table) != sorted(shown_keys):
+                probs.append(("human-truncation-model", f"{fmt} dump {r}: keys shown {sorted(table)} model {sorted(shown_keys)}"))
+            if any(len(k) > 36 for k in table):
+                probs.append(("oracle-human-truncation", f"{fmt} dump {r}: a shown key is longer than max_length"))
+        if tables and not any(e["raised"] for e in impl["events"]):
+            probs.append(("human-disabled-dump-model", f"{fmt}: {len(tables)} more tables than the model expects (a disabled logger must not write)"))
+    return probs
 
 
 # ---------------------------------------------------------------- model expression
@@ -463,6 +595,8 @@ def compare(case, impl, mv):
 
 
 def nontrivial(case, impl):
+    if case["kind"] == "human":
+        return any(e["raised"] for e in impl["events"]) or any(op[0] == "level" for op in case["ops"])
     extras = [d["extra"] for d in impl["dumps"]]
     later_new = any(e for e in extras[1:])
     keysets = [frozenset(p["k"] for p in d["pending"]) for d in impl["dumps"]]
@@ -473,12 +607,12 @@ KNOWN = {"csv-multiline-value-corrupted-by-header-rewrite", "exclude-stdout-also
 
 
 def run_cases(chk, cases):
-    impls = [run_impl(c) for c in cases]
+    impls = [(run_human(c) if c["kind"] == "human" else run_impl(c)) for c in cases]
     exprs = []
     for c, im in zip(cases, impls):
-        exprs += model_exprs(c, im)
+        exprs += exprs_human(c, im) if c["kind"] == "human" else model_exprs(c, im)
     vals = common.coq_eval_many(chk.pid, HEADER, exprs, shard=120, procs=4)
-    results = [compare(c, im, [v]) for c, im, v in zip(cases, impls, vals)]
+    results = [(compare_human(c, im, [v]) if c["kind"] == "human" else compare(c, im, [v])) for c, im, v in zip(cases, impls, vals)]
     return impls, results
 
 
@@ -495,7 +629,7 @@ def main():
         cases.append(gen_case(chk.rng, i))
     impls, results = run_cases(chk, cases)
     distinct = set()
-    hist = {"plain": 0, "breaks": 0, "corpus": n_corpus, "formats": {}, "dumps": {}, "with_record_mean": 0, "with_exclusions": 0, "f5_class": 0, "f6_class": 0}
+    hist = {"plain": 0, "breaks": 0, "human": 0, "corpus": n_corpus, "formats": {}, "dumps": {}, "with_record_mean": 0, "with_exclusions": 0, "f5_class": 0, "f6_class": 0}
     reported = set()
     for idx, (c, im, probs) in enumerate(zip(cases, impls, results)):
         if idx >= n_corpus:
@@ -505,7 +639,7 @@ def main():
         nd = str(sum(1 for op in c["ops"] if op[0] == "dump"))
         hist["dumps"][nd] = hist["dumps"].get(nd, 0) + 1
         hist["with_record_mean"] += int(any(op[0] == "record_mean" for op in c["ops"]))
-        hist["with_exclusions"] += int(any(op[0] != "dump" and op[3] is not None for op in c["ops"]))
+        hist["with_exclusions"] += int(c["kind"] != "human" and any(op[0] != "dump" and op[3] is not None for op in c["ops"]))
         hist["f5_class"] += int(any(s == "csv-multiline-value-corrupted-by-header-rewrite" for s, _ in probs))
         hist["f6_class"] += int(any(s == "exclude-stdout-also-hides-from-log-file" for s, _ in probs))
         if nontrivial(c, im):
@@ -529,7 +663,9 @@ def main():
                             "formats csv+json+log+stdout or subsets. Every 5th history is in the separate line-break sub-stream (LF or CR inside string values, csv+json only), whose "
                             "read-back mismatches are classified by the precise predicate 'a csv-visible value contains a line break AND a later dump adds a csv column'. "
                             "Not generated (precise predicate, see assumptions): dumps without any csv-visible value before the first column or with a single final column. "
-                            "Non-trivial = a later dump adds a column, >= 2 distinct key sets, >= 6 operations. distinct = distinct full case description")
+                            "Every 10th history: log-level sub-stream (set_level, debug/info/warn/error/log, keys longer than max_length=36, colliding truncations, dumps while DISABLED) "
+                            "on the log and stdout writers. Non-trivial = a later dump adds a column, >= 2 distinct key sets, >= 6 operations (log-level sub-stream: a level change or a "
+                            "refused collision). distinct = distinct full case description")
     chk.notes["input_distribution"] = hist
     chk.notes["corpus_cases"] = n_corpus
     chk.add_samples([{"kind": cases[i]["kind"], "formats": cases[i]["formats"], "ops": cases[i]["ops"][:12]} for i in (n_corpus, n_corpus + 4) if i < len(cases)])
